@@ -17,7 +17,7 @@ RULE = ("BIP32-valid 78-byte payloads (depth 0 => fp=index=0; depth 1..255 => an
         "leading zeros; points of both parities incl. x with leading zero bytes) x ALL 12 version constants (exhaustive) x 3 "
         "input forms x {Pub,Prv} node class; version table checked exhaustively in both directions; unknown versions = every "
         "constant +-1, single bit flips of every constant, random 32-bit values; distinct = distinct (monitor, case) digests"
-        " EXTENSIONS: + streams at an offset / holding several records, constructor-built public nodes from uncompressed / hybrid / raw keys, attribute edits on returned Version objects, list edits on returned version lists, version neighbours")
+        " EXTENSIONS: + streams at an offset / holding several records, constructor-built public nodes from uncompressed / hybrid / raw keys, attribute edits on returned Version objects, list edits on returned version lists, version neighbours, enumerated scalar corners, a registry of foreign real-world version prefixes and every harvested 32-bit constant as unknown versions")
 LEVEL_TEXT = ("Every extended-key string emitted by the real serialisers is decoded by an independent Base58Check decoder "
               "and compared byte-for-byte with the BIP32 layout of the node's fields; every parse (str/bytes/stream) is "
               "compared with the reference fields, parsed_version, equality and identical 111-char re-serialisation; public "
@@ -26,6 +26,11 @@ LEVEL_NOTE = "Trusted: reference Base58Check + BIP32 layout. Payloads that are n
 TECHNIQUE = "runtime oracle on real parse/serialise calls with independent decoder; exhaustive version-table enumeration"
 ASSUMPTIONS = ["ecdsa fallback backend"]
 ALL_VERSIONS = sorted(rb32.SLIP132_INV)
+
+
+FOREIGN_VERSIONS = [0x0295b43f, 0x0295b005, 0x02aa7ed3, 0x02aa7a99, 0x024289ef, 0x024285b5, 0x02575483, 0x02575048,   # Ypub Yprv Zpub Zprv Upub Uprv Vpub Vprv
+                    0x019da462, 0x019d9cfe, 0x01b26ef6, 0x01b26792, 0x0436f6e1, 0x0436ef7d,                             # Ltub Ltpv Mtub Mtpv ttub ttpv
+                    0x02facafd, 0x02fac398, 0x0488b21e ^ 0x20000000, 0x043587cf ^ 0x20000000]                           # dgub dgpv, case-flipped first letter
 
 
 def gen_xkey(rnd, lzx):
@@ -340,6 +345,21 @@ def run(ctx):
     lzx = gen.leading_zero_x_scalars() + gen.leading_zero_y_scalars()
     if ctx.shard == 0:
         judge_version_table(ctx)
+    # the boundary scalars are ENUMERATED (not left to the random classes): each with three of the twelve versions, and once
+    # through the serialisers of a node built from the raw key
+    n_ = 0
+    for ci, (ktag, k) in enumerate(gen.scalar_corners()):
+        for vi in (ci % 12, (ci + 5) % 12, (ci + 7) % 12):
+            n_ += 1
+            if ctx.mine(n_):
+                base = gen_xkey(rnd, lzx)
+                base.update({"k": k, "ktag": ktag, "version": ALL_VERSIONS[vi]})
+                judge_roundtrip(ctx, base)
+        n_ += 1
+        if ctx.mine(n_):
+            case = gen_xkey(rnd, lzx)
+            case.update({"k": k, "ktag": ktag, "testnet": bool(ci & 1), "public": bool(ci & 2)})
+            judge_serialize(ctx, case)
     for _ in range(ctx.scale(200, 8000)):
         base = gen_xkey(rnd, lzx)
         for ver in ALL_VERSIONS:           # all 12, exhaustive per payload
@@ -360,6 +380,14 @@ def run(ctx):
         cands += [("pm1", ver + 1), ("pm1", ver - 1)]
         cands += [("bitflip", ver ^ (1 << b)) for b in range(32)]
     cands += [("edge", 0), ("edge", 0xFFFFFFFF), ("edge", 0x0488B21F), ("edge", 0x04000000)]
+    # version prefixes that exist in the wild but are NOT among the twelve (SLIP-0132 multisig Ypub/Zpub/Upub/Vpub families,
+    # other coins' BIP32 prefixes), and every 32-bit number written down anywhere in the code under test (vpkg.harvest)
+    cands += [("registry", v) for v in FOREIGN_VERSIONS]
+    from .. import harvest
+    from ..core import REPO
+    hv = [v for v in harvest.words32(REPO) if v not in rb32.SLIP132_INV]
+    ctx.extra["harvested_32bit_numbers_tried_as_versions"] = len(hv)
+    cands += [("harvested", v) for v in hv]
     for vtag, ver in cands:
         n += 1
         if ctx.mine(n):
